@@ -118,3 +118,57 @@ def check_C08(ctx, replay=None):
     return finish(ctx, "model_checking", cov,
                   ["the on-disk confirmation count of an event is at least every count reported for it (write path order: "
                    "set_confirmations before UpdateConfirmation)"])
+
+
+def _merge_stats(hrs):
+    out = {"evaluations": 0, "samples": [], "classes": set()}
+    for hr in hrs:
+        out["evaluations"] += hr.stats["evaluations"]
+        out["samples"] += hr.stats.get("samples", [])[:2]
+    return out
+
+
+def check_C07(ctx, replay=None):
+    quick = ctx.quick()
+    rows = []
+    for rf in (1, 2, 3, 5):
+        cfg = core.make_cfg(ctx, "MCGating.cfg", RF=rf, MaxTx=3 if quick else 4)
+        res = run_tlc(ctx, "Gating", cfg, workers=4, tags=("TABLE",), timeout=900)
+        _tlc_must_hold(ctx, res, "c07:tlc-invariant")
+        rows += [v for t, v in res.prints if t == "TABLE"]
+    table = ctx.path("gating-table.ndjson")
+    with open(table, "w") as f:
+        for r in rows:
+            f.write(json.dumps(r) + "\n")
+    binary = cargo_build(ctx, "h-cluster")
+    hrs = []
+    for rf in (1, 2, 3, 5):
+        # one process per replication factor (one ClusterActor per process)
+        hr = run_harness(ctx, binary, ["reads", table, rf], timeout=6000)
+        for v in hr.violations:
+            add_violation(ctx, v["key"], v["detail"], v["replay"])
+        hrs.append(hr)
+    cov = {
+        "states": sum(r.distinct for r in ctx.tlc_runs), "transitions": sum(r.generated for r in ctx.tlc_runs),
+        "traces_validated_against_impl": sum(h.stats["evaluations"] for h in hrs),
+        "samples": sum((h.stats.get("samples", [])[:1] for h in hrs), []),
+        "evaluations": sum(h.stats["evaluations"] for h in hrs),
+        "distinct_nontrivial": sum(h.stats["distinct_classes"] for h in hrs),
+        "queries": sum(h.stats.get("queries", 0) for h in hrs),
+        "answers_equal_to_visible_set": sum(h.stats.get("answers_equal_to_visible_set", 0) for h in hrs),
+        "answers_with_fewer_than_visible": sum(h.stats.get("answers_with_fewer_than_visible", 0) for h in hrs),
+        "table_rows": len(rows),
+        "rule": "Gating.tla enumerates every partition history of up to 3 (thorough: 4) transactions of 1-2 events with on-disk "
+                "confirmation counts {0, quorum-1, quorum, rf} for rf in {1,2,3,5}, defines the watermark and the visible set and "
+                "checks GateIsPrefix / UnconfirmedHidden / StreamPrefix. Each history is built on a real Database "
+                "(Transaction::with_confirmation_count), handed to the process's real ClusterActor with ResetCluster so that the "
+                "ConfirmationActor derives the watermark from disk, and ReadEvent for every event, ReadPartition for every (start, "
+                "end, count), ReadStream for every (stream, start, end, count), GetStreamVersion and GetPartitionSequence are sent; "
+                "no answer may contain an event at or above the specification's watermark nor a version/sequence beyond the visible "
+                "ones. evaluations = histories; distinct_nontrivial = (rf, watermark, length) classes.",
+    }
+    return finish(ctx, "model_checking", cov,
+                  ["single process: the node is the only member of its topology (node_count 1), so reads are answered locally; "
+                   "forwarding between replicas is not exercised",
+                   "answers that reveal fewer events than are visible are counted (answers_with_fewer_than_visible), not judged: "
+                   "the statement bounds what may be revealed"])
